@@ -58,6 +58,77 @@ theorem farm_translated_pinned : Irismod.Gen.PureFarm.translated =
      "CaclRewards_locked_1(farmInfo_Locked,deltaAmt)",
      "CaclRewards_debt_1(r_Reward,r_RewardPerShare,locked)"] := rfl
 
+/-- every rejecting guard (an `if` ending in the return of an error, or in a panic) of the translated functions and of
+the handlers around them, as source text in source order: removing, weakening or reordering one breaks this -/
+theorem farm_guards_pinned : Irismod.Gen.PureFarm.guards =
+    ["updatePool: height < pool.LastHeightDistrRewards",
+     "updatePool: len(rules) == 0",
+     "updatePool: rules[i].RemainingReward.LT(rewardCollected)",
+     "updatePool: err := k.bk.SendCoinsFromModuleToModule(ctx, types.ModuleName, types.RewardCollector, rewardTotal); err != nil",
+     "AdjustPool: !exist",
+     "AdjustPool: !pool.Editable",
+     "AdjustPool: creator.String() != pool.Creator",
+     "AdjustPool: k.Expired(ctx, pool)",
+     "AdjustPool: rewardPerBlock != nil && !rewardPerBlock.DenomsSubsetOf(rules.RewardsPerBlock())",
+     "AdjustPool: reward != nil && !rules.Contains(reward)",
+     "AdjustPool: pool, _, err = k.updatePool(ctx, pool, math.ZeroInt(), false); err != nil",
+     "AdjustPool: err := k.bk.SendCoinsFromAccountToModule(ctx, creator, types.ModuleName, reward); err != nil",
+     "Keeper.Stake: !exist",
+     "Keeper.Stake: pool.StartHeight > ctx.BlockHeight()",
+     "Keeper.Stake: k.Expired(ctx, pool)",
+     "Keeper.Stake: lpToken.Denom != pool.TotalLptLocked.Denom",
+     "Keeper.Stake: err := k.bk.SendCoinsFromAccountToModule(ctx, sender, types.ModuleName, sdk.NewCoins(lpToken)); err != nil",
+     "Keeper.Stake: pool, _, err = k.updatePool(ctx, pool, lpToken.Amount, false); err != nil",
+     "Keeper.Stake: err = k.bk.SendCoinsFromModuleToAccount(ctx, types.RewardCollector, sender, rewards); err != nil",
+     "Keeper.Unstake: !exist",
+     "Keeper.Unstake: lpToken.Denom != pool.TotalLptLocked.Denom",
+     "Keeper.Unstake: !exist",
+     "Keeper.Unstake: farmInfo.Locked.LT(lpToken.Amount)",
+     "Keeper.Unstake: pool.TotalLptLocked.Amount.LT(lpToken.Amount)",
+     "Keeper.Unstake: pool, _, err = k.updatePool(ctx, pool, lpToken.Amount.Neg(), false); err != nil",
+     "Keeper.Unstake: err = k.bk.SendCoinsFromModuleToAccount(ctx, types.ModuleName, sender, sdk.NewCoins(lpToken)); err != nil",
+     "Keeper.Unstake: err = k.bk.SendCoinsFromModuleToAccount(ctx, types.RewardCollector, sender, rewards); err != nil",
+     "Keeper.Harvest: !exist",
+     "Keeper.Harvest: k.Expired(ctx, pool)",
+     "Keeper.Harvest: !exist",
+     "Keeper.Harvest: pool, _, err := k.updatePool(ctx, pool, amtAdded, false); err != nil",
+     "Keeper.Harvest: err = k.bk.SendCoinsFromModuleToAccount(ctx, types.RewardCollector, sender, rewards); err != nil",
+     "Keeper.Refund: pool, _, err := k.updatePool(ctx, pool, math.ZeroInt(), true); err != nil",
+     "Keeper.Refund: creator, err := sdk.AccAddressFromBech32(pool.Creator); err != nil",
+     "Keeper.Refund: !refundTotal.IsAllPositive()",
+     "Keeper.Refund: distrModuleAddr.Equals(creator)",
+     "Keeper.Refund: err := k.bk.SendCoinsFromModuleToAccount(ctx, types.ModuleName, creator, refundTotal); err != nil",
+     "Keeper.CreatePool: err := k.DeductPoolCreationFee(ctx, creator); err != nil",
+     "Keeper.CreatePool: err := k.bk.SendCoinsFromAccountToModule(ctx, creator, types.ModuleName, totalReward); err != nil",
+     "Keeper.DestroyPool: !exist",
+     "Keeper.DestroyPool: creator.String() != pool.Creator",
+     "Keeper.DestroyPool: !pool.Editable",
+     "Keeper.DestroyPool: k.Expired(ctx, pool)",
+     "Keeper.createPool: endHeight, err := pool.ExpiredHeight(); err != nil",
+     "msgServer.CreatePool: creator, err := sdk.AccAddressFromBech32(msg.Creator); err != nil",
+     "msgServer.CreatePool: ctx.BlockHeight() > msg.StartHeight",
+     "msgServer.CreatePool: maxRewardCategories := m.k.MaxRewardCategories(ctx); uint32( len(msg.TotalReward), ) > maxRewardCategories",
+     "msgServer.CreatePool: err := m.k.ck.ValidatePool(ctx, msg.LptDenom); err != nil",
+     "msgServer.CreatePool: pool, err := m.k.CreatePool( ctx, msg.Description, msg.LptDenom, msg.StartHeight, msg.RewardPerBlock.Sort(), msg.TotalReward.Sort(), msg.Editable, creator, ); err != nil",
+     "msgServer.CreatePoolWithCommunityPool: proposer, err := sdk.AccAddressFromBech32(msg.Proposer); err != nil",
+     "msgServer.CreatePoolWithCommunityPool: uint32(len(totalReward)) > maxRewardCategories",
+     "msgServer.CreatePoolWithCommunityPool: err := m.k.ck.ValidatePool(ctx, msg.Content.LptDenom); err != nil",
+     "msgServer.CreatePoolWithCommunityPool: err := m.k.bk.SendCoinsFromAccountToModule(ctx, proposer, types.EscrowCollector, msg.Content.FundSelfBond); err != nil",
+     "msgServer.CreatePoolWithCommunityPool: err := m.k.escrowFromFeePool(ctx, msg.Content.FundApplied); err != nil",
+     "msgServer.CreatePoolWithCommunityPool: data, err := codectypes.NewAnyWithValue(&msg.Content); err != nil",
+     "msgServer.CreatePoolWithCommunityPool: proposal, err := m.k.gk.SubmitProposal( ctx, msgs, \"\", msg.Content.Title, msg.Content.Description, proposer, false, ); err != nil",
+     "msgServer.CreatePoolWithCommunityPool: _, err = m.k.gk.AddDeposit(ctx, proposal.Id, proposer, msg.InitialDeposit); err != nil",
+     "msgServer.DestroyPool: creator, err := sdk.AccAddressFromBech32(msg.Creator); err != nil",
+     "msgServer.DestroyPool: refundCoin, err := m.k.DestroyPool(ctx, msg.PoolId, creator); err != nil",
+     "msgServer.AdjustPool: creator, err := sdk.AccAddressFromBech32(msg.Creator); err != nil",
+     "msgServer.AdjustPool: err = m.k.AdjustPool( ctx, msg.PoolId, msg.AdditionalReward, msg.RewardPerBlock, creator, ); err != nil",
+     "msgServer.Stake: sender, err := sdk.AccAddressFromBech32(msg.Sender); err != nil",
+     "msgServer.Stake: reward, err := m.k.Stake(ctx, msg.PoolId, msg.Amount, sender); err != nil",
+     "msgServer.Unstake: sender, err := sdk.AccAddressFromBech32(msg.Sender); err != nil",
+     "msgServer.Unstake: reward, err := m.k.Unstake(ctx, msg.PoolId, msg.Amount, sender); err != nil",
+     "msgServer.Harvest: sender, err := sdk.AccAddressFromBech32(msg.Sender); err != nil",
+     "msgServer.Harvest: reward, err := m.k.Harvest(ctx, msg.PoolId, sender); err != nil"] := rfl
+
 /-- block interval of a release: `height - last` (int64 subtraction does not wrap for heights of a chain) -/
 theorem updatePool_blockInterval_eq (h last : Nat) (hl : last ≤ h) (hh : h < 9223372036854775808) :
     updatePool_blockInterval_1 h last = some ((h - last : Nat) : Int) := by
